@@ -152,6 +152,8 @@ func (c *bCache[K, V]) set(k K, v V, d time.Duration) {
 
 	if iter.Expire != 0 {
 		c.visit.AddB(float64(iter.Expire), k)
+	} else {
+		c.visit.Remove(k)
 	}
 	c.member.Put(k, iter)
 }
@@ -212,6 +214,8 @@ func (c *bCache[K, V]) replace(k K, v V, d time.Duration) bool {
 	c.member.Put(k, iter)
 	if iter.Expire != 0 {
 		c.visit.AddB(float64(iter.Expire), k)
+	} else {
+		c.visit.Remove(k)
 	}
 	return true
 }
